@@ -12,24 +12,40 @@ import (
 	"polycheck/ssau"
 )
 
-// HDR-FREE: the 80 header bytes of a binary STL file are free-form. On the
-// decode side (Read, ReadMesh and the package-local functions they call) no
-// branch condition, no allocation size and no returned error may be
-// data-dependent on header content: only the count and the records decide
-// whether and how a file is accepted. Forward def-use taint:
-//   sources  = values of type stl.Header, []byte views sliced from a Header,
-//              bytes loaded from / indexed in a Header (type-resolved, so the
-//              header may live in a local, behind a pointer or in Binary.Header);
-//   flow     = every SSA operand → result (calls: any tainted argument taints the
-//              results), stores into local storage and later loads of it;
-//   cut      = the recognised stream operations themselves (binary.Read /
-//              io.ReadFull filling the header do not *read* it), fmt formatting
-//              (an error message may quote the header);
-//   sinks    = If conditions, make() sizes, error results of returns, panics.
-// Copying the header into the result, logging it, or formatting it stays silent.
+// HDR-FREE and ATTR-OPAQUE: opaque payload of a binary STL file.
+//
+//   HDR-FREE     the 80 header bytes are free-form;
+//   ATTR-OPAQUE  the 2-byte attribute word of a record is opaque payload.
+//
+// On the decode side (Read, ReadMesh and the package-local functions they
+// call) nothing but storing / copying may be done with either: no branch
+// condition, allocation size, read length / skip amount, returned error or
+// panic may be data-dependent on it — only the count and the record block
+// decide whether and how a file is accepted. Forward def-use taint:
+//   sources  HDR-FREE: values of type stl.Header, []byte views sliced from a
+//            Header, bytes loaded from / indexed in one (type-resolved);
+//            ATTR-OPAQUE: reads of the field stl.Triangle.Attribute (by field
+//            object, wherever the record lives) and every value that is stored
+//            into that field (a hand decoder's word at record offset 48);
+//   flow     every SSA operand → result (calls: a tainted argument taints the
+//            results), stores into local storage and later loads of it;
+//   cut      the recognised stream operations themselves (the read that fills
+//            the storage does not read it), fmt / log / errors formatting;
+//   sinks    If conditions, make() sizes, arguments of any other call that is
+//            handed a stream (read length, CopyN / Seek / Discard amount),
+//            error results of returns, panics.
+// Copying into the result, through locals or struct fields, logging and
+// quoting in an unrelated error message stay silent.
 
-func hdrFree(a *anchors, r *rep, roots []*ssa.Function) {
-	// closure over package-local static callees
+type taintCfg struct {
+	rule    string
+	what    string // "the 80-byte header of a binary STL file is free-form"
+	isSrc   func(v ssa.Value) bool
+	stSrc   func(st *ssa.Store) bool // the stored value itself is a source
+	srcName string
+}
+
+func decodeClosure(a *anchors, roots []*ssa.Function) []*ssa.Function {
 	seen := map[*ssa.Function]bool{}
 	var fns []*ssa.Function
 	var add func(f *ssa.Function)
@@ -52,9 +68,7 @@ func hdrFree(a *anchors, r *rep, roots []*ssa.Function) {
 		add(f)
 	}
 	sort.SliceStable(fns, func(i, j int) bool { return fns[i].Pos() < fns[j].Pos() })
-	for _, fn := range fns {
-		hdrFreeFn(a, r, fn)
-	}
+	return fns
 }
 
 func (a *anchors) isHeaderType(t types.Type) bool { return types.Identical(t, a.tHeader) }
@@ -64,25 +78,11 @@ func (a *anchors) isHeaderPtr(t types.Type) bool {
 	return ok && a.isHeaderType(p.Elem())
 }
 
-func hdrFreeFn(a *anchors, r *rep, fn *ssa.Function) {
-	name := a.p.FuncName(fn)
-	e := sx.NewEnv(fn)
-	// stream operations are cuts
-	cut := map[ssa.Value]bool{}
-	for _, op := range e.FindIO(nil) {
-		cut[op.Call] = true
-	}
-	tainted := map[ssa.Value]bool{}
-	why := map[ssa.Value]string{}
-	type loc struct {
-		root ssa.Value
-		path []int
-	}
-	var dirty []loc
-	isSource := func(v ssa.Value) bool {
+func hdrFree(a *anchors, r *rep, roots []*ssa.Function) {
+	cfg := taintCfg{rule: "HDR-FREE", what: "the 80-byte header of a binary STL file is free-form", srcName: "header bytes"}
+	cfg.isSrc = func(v ssa.Value) bool {
 		if a.isHeaderType(v.Type()) {
-			switch v.(type) {
-			case *ssa.Const:
+			if _, isC := v.(*ssa.Const); isC {
 				return false
 			}
 			return true
@@ -101,8 +101,82 @@ func hdrFreeFn(a *anchors, r *rep, fn *ssa.Function) {
 		}
 		return false
 	}
+	for _, fn := range decodeClosure(a, roots) {
+		taintFn(a, r, fn, cfg)
+	}
+}
+
+func attrOpaque(a *anchors, r *rep, roots []*ssa.Function) {
+	st := a.tTri.Underlying().(*types.Struct)
+	var attrVar *types.Var
+	for i := 0; i < st.NumFields(); i++ {
+		if st.Field(i).Name() == "Attribute" {
+			attrVar = st.Field(i)
+		}
+	}
+	if attrVar == nil {
+		return
+	}
+	cfg := taintCfg{rule: "ATTR-OPAQUE", what: "the 2-byte attribute word of a binary STL record is opaque payload", srcName: "attribute word"}
+	cfg.isSrc = func(v ssa.Value) bool {
+		switch x := v.(type) {
+		case *ssa.UnOp:
+			if x.Op == token.MUL {
+				if fa, ok := x.X.(*ssa.FieldAddr); ok && ssau.FieldOf(fa) == attrVar {
+					return true
+				}
+			}
+		case *ssa.Field:
+			return ssau.FieldOf(x) == attrVar
+		}
+		return false
+	}
+	cfg.stSrc = func(s *ssa.Store) bool {
+		if fa, ok := s.Addr.(*ssa.FieldAddr); ok && ssau.FieldOf(fa) == attrVar {
+			if _, isC := s.Val.(*ssa.Const); !isC {
+				return true
+			}
+		}
+		return false
+	}
+	for _, fn := range decodeClosure(a, roots) {
+		taintFn(a, r, fn, cfg)
+	}
+}
+
+func isStreamTyped(t types.Type) bool {
+	it, ok := t.Underlying().(*types.Interface)
+	if !ok {
+		return false
+	}
+	for i := 0; i < it.NumMethods(); i++ {
+		switch it.Method(i).Name() {
+		case "Read", "Write", "Seek", "Discard":
+			return true
+		}
+	}
+	return false
+}
+
+func taintFn(a *anchors, r *rep, fn *ssa.Function, cfg taintCfg) {
+	name := a.p.FuncName(fn)
+	e := sx.NewEnv(fn)
+	cut := map[ssa.Value]bool{}
+	for _, op := range e.FindIO(nil) {
+		cut[op.Call] = true
+	}
+	tainted := map[ssa.Value]bool{}
+	why := map[ssa.Value]string{}
+	type loc struct {
+		root ssa.Value
+		path []int
+	}
+	var dirty []loc
 	mark := func(v ssa.Value, reason string) bool {
 		if v == nil || tainted[v] || cut[v] {
+			return false
+		}
+		if _, isC := v.(*ssa.Const); isC {
 			return false
 		}
 		tainted[v] = true
@@ -118,6 +192,9 @@ func hdrFreeFn(a *anchors, r *rep, fn *ssa.Function) {
 		for _, b := range fn.Blocks {
 			for _, in := range b.Instrs {
 				if st, ok := in.(*ssa.Store); ok {
+					if cfg.stSrc != nil && cfg.stSrc(st) {
+						changed = mark(st.Val, cfg.srcName) || changed
+					}
 					if tainted[st.Val] {
 						ad := sx.ResolveAddr(st.Addr)
 						root := ad.Root
@@ -144,14 +221,13 @@ func hdrFreeFn(a *anchors, r *rep, fn *ssa.Function) {
 				if tainted[v] || cut[v] {
 					continue
 				}
-				if isSource(v) {
-					changed = mark(v, "header bytes") || changed
+				if cfg.isSrc(v) {
+					changed = mark(v, cfg.srcName) || changed
 					continue
 				}
 				if c, ok := v.(*ssa.Call); ok && isFmt(c) {
 					continue
 				}
-				// loads of dirty local storage
 				if ld, ok := v.(*ssa.UnOp); ok && ld.Op == token.MUL {
 					ad := sx.ResolveAddr(ld.X)
 					root := ad.Root
@@ -159,15 +235,15 @@ func hdrFreeFn(a *anchors, r *rep, fn *ssa.Function) {
 						root, _ = e.SliceRoot(ad.Slice)
 					}
 					for _, d := range dirty {
-						if d.root == root && sx.PathsOverlap(d.path, ad.Path) {
-							changed = mark(v, "storage holding header bytes") || changed
+						// a load is tainted only if it reads (part of) the dirty location itself
+						if d.root == root && len(ad.Path) >= len(d.path) && sx.PathsOverlap(d.path, ad.Path) {
+							changed = mark(v, "storage holding the "+cfg.srcName) || changed
 						}
 					}
 					if tainted[v] {
 						continue
 					}
 				}
-				// a pointer to storage is not its content
 				switch v.(type) {
 				case *ssa.Alloc, *ssa.FieldAddr, *ssa.IndexAddr:
 					continue
@@ -184,7 +260,7 @@ func hdrFreeFn(a *anchors, r *rep, fn *ssa.Function) {
 	n := 0
 	report := func(pos token.Pos, k, what string) {
 		n++
-		r.Violate("HDR-FREE", fmt.Sprintf("%s#%s", name, k), a.p.Pos(pos), "the 80-byte header of a binary STL file is free-form, but "+what+" depends on its content: well-formed files are treated differently (or rejected) because of their header text")
+		r.Violate(cfg.rule, fmt.Sprintf("%s#%s", name, k), a.p.Pos(pos), cfg.what+", but "+what+" depends on its content: well-formed files are treated differently (or rejected) because of it")
 	}
 	for _, b := range fn.Blocks {
 		for _, in := range b.Instrs {
@@ -207,16 +283,36 @@ func hdrFreeFn(a *anchors, r *rep, fn *ssa.Function) {
 						report(x.Pos(), "returned-error", "a returned error")
 					}
 				}
+			case *ssa.Call:
+				if cut[x] || isFmt(x) {
+					continue
+				}
+				hasStream, hasTaint := false, false
+				args := x.Call.Args
+				if x.Call.IsInvoke() {
+					args = append([]ssa.Value{x.Call.Value}, args...)
+				}
+				for _, arg := range args {
+					if isStreamTyped(arg.Type()) {
+						hasStream = true
+					}
+					if tainted[arg] {
+						hasTaint = true
+					}
+				}
+				if hasStream && hasTaint {
+					report(x.Pos(), "stream-amount", "the amount read / skipped / written by a stream operation")
+				}
 			}
 		}
 	}
 	if n == 0 {
 		srcs := 0
 		for v := range tainted {
-			if why[v] == "header bytes" {
+			if why[v] == cfg.srcName {
 				srcs++
 			}
 		}
-		r.Hold("HDR-FREE", name, a.p.Pos(fn.Pos()), fmt.Sprintf("%d header-derived values, %d values reached by def-use; none reaches a branch condition, allocation size, returned error or panic", srcs, len(tainted)))
+		r.Hold(cfg.rule, name, a.p.Pos(fn.Pos()), fmt.Sprintf("%d source values (%s), %d values reached by def-use; none reaches a branch condition, allocation size, stream amount, returned error or panic", srcs, cfg.srcName, len(tainted)))
 	}
 }
